@@ -2,6 +2,7 @@ package main
 
 import (
 	"os"
+	"runtime/debug"
 	"fmt"
 	"go/types"
 	"sort"
@@ -64,7 +65,7 @@ type OutOfSubset struct{ What string }
 
 func oos(format string, a ...interface{}) {
 	if os.Getenv("GOVC_DEBUG") != "" {
-		panic(fmt.Sprintf(format, a...))
+		fmt.Fprintf(os.Stderr, "OOS: %s\n%s\n", fmt.Sprintf(format, a...), debug.Stack())
 	}
 	panic(OutOfSubset{fmt.Sprintf(format, a...)})
 }
